@@ -244,6 +244,19 @@ def judge_sessions(prop, rep, events, name):
 CLEAR_ON_DISCONNECT = "1"
 
 
+def input_queue_model(rep):
+    """InputQueue.tla: the terminal -> event source -> handler path.  The edge-triggered source (the library as pinned) gets
+    stuck exactly for bursts larger than one chunk - the model-level face of the open finding F1; a source notified while
+    bytes remain does not."""
+    out = {}
+    for edge, burst, want_ok in (("1", "8", True), ("1", "9", False), ("0", "9", True), ("1", "20", False), ("0", "20", True)):
+        res = core.run_mc("MC_InputQueue", workers=2, timeout=300, cache=False, env_extra={"EDGE": edge, "BURST": burst})
+        out[f"edge={edge},burst={burst}(chunk=8)"] = "drained" if res["ok"] else "stuck: " + ",".join(res["violated"])
+        if res["ok"] != want_ok:
+            raise core.ToolError(f"MC_InputQueue edge={edge} burst={burst}: expected {'ok' if want_ok else 'stuck'}, got {res['violated']}")
+    rep.extra["input_queue_model"] = out
+
+
 def lifecycle_model(prop, tier, rep):
     """Step D for the client's life (RadarSession): safety and, under weak fairness of the program's own steps, liveness"""
     for r in ("0", "1"):
@@ -414,12 +427,14 @@ def run(prop, tier, seed, rep):
         results.append(retry_wait_session(bindir, "retrywait-" + qk, qk))
         jobs.append({"tag": "retrywait-" + qk})
     # a burst of terminal input below and above the size the terminal library reads at a time (1024 bytes), ending in q
-    for nkeys in (300, 500):
+    # (InputQueue.tla predicts the threshold: delayed exactly when the burst exceeds the 1024 bytes read per notification)
+    for nkeys in (300, 341, 342, 500):
         results.append(flood_session(bindir, f"flood-{3 * nkeys + 1}", nkeys))
         jobs.append({"tag": f"flood-{3 * nkeys + 1}"})
     # the client's life around its connections: judged by Trace_Session only (a client that ends by itself when its feed
     # goes away is not a session Trace_UI knows)
     lifecycle_model(prop, tier, rep)
+    input_queue_model(rep)
     lj = life_jobs(rng, tier)
     with cf.ThreadPoolExecutor(max_workers=6) as ex:
         life = list(ex.map(lambda j: life_session(bindir, random.Random(j["seed"]), j["tag"], j["retry"], j["nconn"], j["last"], j["quit_key"]), lj))
